@@ -86,6 +86,13 @@ pub fn judge_lazy(op: impl FnOnce() -> String, class: impl FnOnce() -> String, c
 }
 
 fn case_unit(day: i64, nod: u64, off: i32, op: usize, n: u32, acc: &mut Acc) {
+    case_unit_inner(day, nod, off, op, n, acc);
+    if crate::props::anchor::hash(&[day as u64, nod, off as u64, op as u64, n as u64]) % 16 == 0 {
+        crate::props::anchor::values(acc, "add/sub (purity probe)", &|| json!({"kind": "unit", "day": day, "nod": nod.to_string(), "off": off, "op": op, "n": n}));
+    }
+}
+
+fn case_unit_inner(day: i64, nod: u64, off: i32, op: usize, n: u32, acc: &mut Acc) {
     let dt = match dt_from_off(day, nod, off) {
         Some(d) => d,
         None => {
